@@ -73,6 +73,47 @@ def backward_euler(h, body="PM", fixed_point=False, seed=0):
         h.le("BackwardEuler: friction in the Coulomb disk of the projected normal percussion", y1[1:] @ y1[1:], (mu * y1[0]) * (mu * y1[0]))
 
 
+def _system2(h, seed=0):
+    """two point masses, each with its own frictional contact on the plane (different friction coefficients): global index sets differ from local ones"""
+    from cardillo import System
+    from cardillo.discrete import Frame
+    from cardillo.contacts import Sphere2Plane
+    rng = np.random.default_rng(seed + 6)
+    a, b = lib.make_pm(rng, "a"), lib.make_pm(rng, "b")
+    fr = Frame(name="plane")
+    mu1, mu2 = h.pos("mu1"), h.pos("mu2")
+    c1 = Sphere2Plane(fr, a, mu=mu1, r=0.25, e_N=0.0, e_F=0.0, name="c1")
+    c2 = Sphere2Plane(fr, b, mu=mu2, r=0.125, e_N=0.0, e_F=0.0, name="c2")
+    sysm = System()
+    sysm.add(a, b, fr, c1, c2)
+    lib.assemble(sysm)
+    return sysm, (c1, c2), (mu1, mu2)
+
+
+def two_contacts(h, solver="BackwardEuler", seed=0):
+    """projection stage with TWO contacts: every friction percussion lies in the Coulomb disk of ITS OWN contact's normal percussion"""
+    import cardillo.solver as S
+    sysm, cons, mus = _system2(h, seed)
+    with h.capture():
+        sol = getattr(S, "Rattle" if solver.startswith("Rattle") else solver)(sysm, 1.0, 0.1)
+    sol.tn, sol.qn, sol.un, sol.dt = h.real("t"), h.vec("q", sysm.nq), h.vec("u", sysm.nu), h.pos("dt")
+    sol.prox_r_N = h.arr([h.pos("rN0"), h.pos("rN1")])
+    sol.prox_r_F = h.arr([h.pos(f"rF{i}") for i in range(4)])
+    y0 = h.vec("y", 6)
+    if solver == "BackwardEuler":
+        y1 = sol.prox(h.vec("x", len(sol.xn)), y0)
+        PN_used = y1[:2]                      # friction is projected with the NEW normal percussions
+    elif solver == "Rattle1":
+        y1 = sol.prox1(h.vec("x", len(sol.x1n)), y0)
+        PN_used = np.array([_max0(h, y0[0]), _max0(h, y0[1])], dtype=object if h.sym else float)      # stage 1 projects with the given ones
+    else:
+        raise ValueError(solver)
+    for k, (c, mu) in enumerate(zip(cons, mus)):
+        PF = y1[2 + c.la_FDOF]
+        h.le(f"{solver}: contact {k}: P_N >= 0", 0.0, y1[c.la_NDOF[0]])
+        h.le(f"{solver}: contact {k}: friction in the Coulomb disk of its own normal percussion", PF @ PF, (mu * PN_used[c.la_NDOF[0]]) * (mu * PN_used[c.la_NDOF[0]]))
+
+
 def rattle(h, stage=1, body="PM", fixed_point=False, seed=0, active=True):
     from cardillo.solver import Rattle
     sysm, b, con, mu = _system(h, body, seed)
@@ -258,5 +299,7 @@ def cases(tier, seed):
         cs.append(Case(f"Rattle2/{body}/inactive", rattle, dict(stage=2, body=body, fixed_point=False, seed=seed, active=False), timeout=T))
     for body in (("PM", "RBc") if tier == "quick" else ("PM", "RBc", "RB")):
         cs.append(Case(f"DualStormerVerlet/{body}/fixed_point", dsv, dict(body=body, seed=seed), timeout=T, hard=T * 10, max_paths=64))
+    for solver in ("BackwardEuler", "Rattle1"):
+        cs.append(Case(f"{solver}/two_contacts/feasible", two_contacts, dict(solver=solver, seed=seed), timeout=T, hard=T * 10, max_paths=256))
     cs.append(Case("Moreau/step/sphere-sphere/restituted_gap_rate", moreau_xi, dict(seed=seed), timeout=T, hard=T * 25, max_paths=64))
     return cs
